@@ -11,8 +11,16 @@ let parse_ms (s : string) : Exec.max_steps =
 let parse_script (s : string) : Datatypes.nat option list =
   Stdlib.List.map (fun w -> if w = "x" then None else Some (nat_of_int (int_of_string w))) (split_on ',' s)
 
-let parse_obj (w : string) : Objects.obj =
+let parse_obj (idx : int) (w : string) : Objects.obj =
   match w.[0] with
+  | 'v' -> Objects.OCondvar ([], Datatypes.O)
+  | 'c' ->
+    let b = String.sub w 1 (String.length w - 1) in
+    let ch = SyncOps2.chan_new (if b = "u" then None else Some (nat_of_int (int_of_string b))) in
+    Objects.OChan (SyncOps2.set_senders ch (nat_of_int 3))
+  | 'e' -> Objects.OCell ([n_of_int 1; n_of_int 1; n_of_int 1; n_of_int 1], [])
+  | 'b' -> Objects.OBarrier (nat_of_int (int_of_string (String.sub w 1 (String.length w - 1))), Datatypes.O, [], [], [])
+  | 'o' -> Objects.OOnce (Objects.OnNone, false, nat_of_int (idx + 1))
   | 'a' -> Objects.OAtomic (n_of_string (String.sub w 1 (String.length w - 1)), [])
   | 'm' -> SyncOps.mutex_new
   | 'w' -> SyncOps.rwlock_new
@@ -68,6 +76,27 @@ let parse_op (w : string) : Prog.op =
   | "tr" -> Prog.PRwTry (num_after w 2, false)
   | "tw" -> Prog.PRwTry (num_after w 2, true)
   | "ru" -> Prog.PRwUnlock (num_after w 2)
+  | "cw" -> (match String.split_on_char '.' (String.sub w 2 (String.length w - 2)) with
+             | [cv; m] -> Prog.PCvWait (nat_of_int (int_of_string cv), nat_of_int (int_of_string m))
+             | _ -> failwith "bad cw")
+  | "cn" -> Prog.PCvNotify (num_after w 2, false)
+  | "ca" -> Prog.PCvNotify (num_after w 2, true)
+  | "sd" | "ts" -> (match String.split_on_char '.' (String.sub w 2 (String.length w - 2)) with
+             | [ch; slot; v] ->
+               let ch = nat_of_int (int_of_string ch) and slot = nat_of_int (int_of_string slot) and v = n_of_string v in
+               if pre = "sd" then Prog.PSend (ch, slot, v) else Prog.PTrySend (ch, slot, v)
+             | _ -> failwith "bad send")
+  | "rc" -> Prog.PRecv (num_after w 2)
+  | "tc" -> Prog.PTryRecv (num_after w 2)
+  | "dt" -> (match String.split_on_char '.' (String.sub w 2 (String.length w - 2)) with
+             | [ch; slot] -> Prog.PDropTx (nat_of_int (int_of_string ch), nat_of_int (int_of_string slot))
+             | _ -> failwith "bad dt")
+  | "dr" -> Prog.PDropRx (num_after w 2)
+  | "bw" -> Prog.PBarrier (num_after w 2)
+  | "co" -> (match String.split_on_char '.' (String.sub w 2 (String.length w - 2)) with
+             | [o; b] -> Prog.PCallOnce (nat_of_int (int_of_string o), nat_of_int (int_of_string b))
+             | _ -> failwith "bad co")
+  | "ic" -> Prog.PIsCompleted (num_after w 2)
   | _ ->
     if w.[0] = 'a' then
       (match String.split_on_char '.' w with
@@ -108,14 +137,14 @@ let fuel = nat_of_int 200000
 let run (ws : string list) : string =
   match ws with
   | ["prog"; ms; script; rseed; objs; bodies] ->
-    let objs = Stdlib.List.map parse_obj (split_on ',' objs) in
+    let objs = Stdlib.List.mapi parse_obj (split_on ',' objs) in
     let ((w, _), out) = Prog.run_prog fuel (parse_ms ms) objs (parse_bodies bodies) (parse_script script) (n_of_string rseed) in
     let evs = Stdlib.List.rev_map show_event w.Exec.w_trace in
     String.concat " " (evs @ ["T=" ^ show_outcome out; "S=" ^ show_sched w.Exec.w_e.Exec.recorded])
   | ["progdfs"; ms; mi; objs; bodies] ->
     let cap = 3000 in
     let mi = if mi = "-" then cap else min (int_of_string mi) cap in
-    let objs = Stdlib.List.map parse_obj (split_on ',' objs) in
+    let objs = Stdlib.List.mapi parse_obj (split_on ',' objs) in
     let ((execs, _), _) = Prog.run_prog_dfs (nat_of_int (cap + 1)) fuel (parse_ms ms) (Some (nat_of_int mi)) objs (parse_bodies bodies) in
     let failed = Stdlib.List.exists (fun (_, o) -> Runner.is_failure o) execs in
     let show (w, o) = "S=" ^ show_sched w.Exec.w_e.Exec.recorded ^ ":T=" ^ show_outcome o in
